@@ -214,6 +214,8 @@ def nums(regime):
         st.tuples(st.just("Tc"), tc), st.tuples(st.just("Tw"), tc), st.tuples(st.just("Tz"), tz),
         st.tuples(st.just("TL"), small), st.tuples(st.just("Ts"), tc),
         st.tuples(st.just("Td"), small, small), st.tuples(st.just("TD"), small, small),
+        # TD with ty = 0 sets the leading to 0 like any other value (tx ty TD = -ty TL tx ty Td)
+        st.tuples(st.just("TD"), small, st.just(Fr(0))), st.tuples(st.just("T*")),
         st.tuples(st.just("Tm"), mat), st.tuples(st.just("T*")),
         st.tuples(st.just("Tj"), TXT), st.tuples(st.just("Tj"), TXT), st.tuples(st.just("Tj"), TXT),
         st.tuples(st.just("TJ"), st.lists(tjitem, min_size=1, max_size=4)),
